@@ -7,6 +7,7 @@ import (
 	"crypto/x509"
 	"encoding/binary"
 	"fmt"
+	"io"
 	"os"
 	"strconv"
 	"strings"
@@ -272,6 +273,39 @@ func c02Run(c *hx.Ctx, tier, unit string) {
 				}
 				c.Outcome("order-independent")
 				c.Nontrivial([]byte(parts[1]), []byte(fmt.Sprint(seq)))
+				// the lower-level twin: ONE parsed signature value (ParseAuthenticode of the table entry)
+				// verified against the image stream for the same certificates in the same order
+				if !c.Next() {
+					continue
+				}
+				sigs, serr := p.Signatures()
+				if serr != nil || len(sigs) == 0 {
+					continue
+				}
+				var ac *authenticode.Authenticode
+				var aerr error
+				if pn := hx.Try(func() { ac, aerr = authenticode.ParseAuthenticode(sigs[0].Certificate) }); pn != nil || aerr != nil {
+					continue
+				}
+				// the stream the digest is defined over, from the reference reader (s is already padded)
+				var stream []byte
+				if im, rerr := refpe.Parse(s); rerr == nil {
+					for _, r := range im.HashedRanges() {
+						stream = append(stream, s[r.From:r.To]...)
+					}
+				}
+				hs := func() io.Reader { return bytes.NewReader(stream) }
+				for _, ci := range seq {
+					var ok bool
+					if pn := hx.Try(func() { ok, _ = ac.Verify(certs[ci].c, hs()) }); pn != nil {
+						break
+					}
+					if ok != fresh[ci] {
+						c.Outcome("order-dependent")
+						c.Violation("C02 verdict of verifying one parsed signature value against the image depends on verifications made earlier on that value (against "+certs[ci].name+")", map[string]any{"order": seq, "fresh_verdicts": fresh})
+						break
+					}
+				}
 			}
 		}
 	case "edits":
